@@ -43,7 +43,7 @@ CLAIM = {
          "official->intermediary and intermediary->named; SpecializedMethods::remap maps key and value of both maps position-wise; "
          "(R15.3) InheritanceIndex::store records both directions of the super-class edge (unless java/lang/Object) and of every interface edge "
          "(complete, unconditional walk of `interfaces`, no return before it), the class visitor passes (name, super_class, interfaces) "
-         "position-wise, get_ancestors / get_descendants push every entry found under parents / children to the work list and to the result.",
+         "position-wise, get_ancestors / get_descendants push every entry found under parents / children to the work list and to the result. Premises evaluated with it: C06 R06.1/R06.3/R06.6 (BRemapper defaults, super-type search, jar super-class provider).",
  "note": "Not decided: correctness of the detection on real class hierarchies (termination of the closure on cyclic input, get_higher_method, inheritance of "
          "names inside quill's BRemapper - C06), whether leniency for classes outside the jar should test the bridge or the specialized "
          "type (the rule accepts either), InvokeDynamic bodies. Trusted: rustc HIR/typeck/const-eval; spec/c15_bridge.json.",
